@@ -337,11 +337,8 @@ def report(ctx: click.Context, tjp_file: Optional[str], output_csv: bool, output
         if not success:
             raise ReportGenerationError(error_msg or "Report generation failed")
 
-        # Find ALL generated files in temp directory
-        if output_format == "json":
-            output_files = list(temp_output_dir.glob("*.json"))
-        else:
-            output_files = list(temp_output_dir.glob("*.csv"))
+        # Only the auto-generated report is emitted, whatever other reports the project defines
+        output_files = list(temp_output_dir.glob(f"{auto_report_id}.{output_format}"))
 
         if verbose:
             logger.debug("Found %d output files: %s", len(output_files), [f.name for f in output_files])
